@@ -52,6 +52,27 @@ def items(tier: str) -> List[Any]:
         if s not in seen:
             seen.add(s)
             out.append(("shuffle", s))
+    # soundness-only: comparisons whose operand is ANOTHER transaction's GroupIndex (a constant of the
+    # program, not the governed transaction's index) - they must not be attributed to `txn GroupIndex`
+    decoys = [
+        ["gtxn 1 GroupIndex", "int 1", "=="],
+        ["int 1", "gtxns GroupIndex", "int 1", "=="],
+        ["gtxn 0 GroupIndex", "int 0", "=="],
+        ["gtxn 2 GroupIndex", "int 2", ">="],
+        ["int 1", "gtxn 1 GroupIndex", "=="],
+        ["gtxn 0 GroupIndex", "int 1", "<"],
+        ["txn GroupIndex", "gtxns GroupIndex", "int 3", "<"],
+    ]
+    for s in spaces.layered(decoys, decoys[:2], tier, l2_size=2, l3=False, max_subs=1, chains=False):
+        if s not in seen:
+            seen.add(s)
+            out.append(("shuffle", s))
+    # soundness-only: loops that really iterate (counter conditions), incl. loops whose header is a
+    # subroutine's entry label
+    for s in spaces.counted_loops(small[:2] + [["global GroupSize", "int 2", "!="]], tier):
+        if s not in seen:
+            seen.add(s)
+            out.append(("shuffle", s))
     from mc.gen import raw  # pylint: disable=import-outside-toplevel
 
     for atom in [["global GroupSize", "int 2", "=="], ["txn GroupIndex", "int 1", "<"], ["global GroupSize", "int 2", "!="]]:
